@@ -244,6 +244,22 @@ func (s *sched) quiesce() {
 	}
 }
 
+// yield lets the other coroutines run (each until it blocks) and then continues the caller: an
+// explicit preemption point for interleavings between statements that do not block.
+func (s *sched) yield() {
+	me := s.cur
+	s.progress++ // the others may be able to move now
+	d := s.runnable(me)
+	if d == nil || d == me {
+		return
+	}
+	me.waitWhat, me.waitTimers = "yield", nil
+	s.transfer(me, d)
+	if me.id == 0 {
+		s.deadlock = false
+	}
+}
+
 // killAll ends every parked coroutine (path end).
 func (s *sched) killAll() {
 	s.killed = true
